@@ -91,6 +91,9 @@ pub fn main(scens: &[&dyn Scenario]) -> ! {
         Some("run") => cmd_run(scens, &args[1..]),
         Some("replay") => cmd_replay(scens, &args[1..]),
         Some("hashes") => cmd_hashes(scens, &args[1..]),
+        Some("scan") => cmd_scan(scens, &args[1..]),
+        Some("journal") => cmd_journal(scens, &args[1..]),
+        Some("isolate") => cmd_isolate(scens, &args[1..]),
         _ => {
             eprintln!("usage: list | run <scenario> .. | replay <file> | hashes <scenario> ..");
             2
@@ -136,7 +139,187 @@ fn cmd_hashes(scens: &[&dyn Scenario], args: &[String]) -> i32 {
     0
 }
 
+/// Child of `isolate`: executes its share of the batch on one thread, announcing every run index
+/// before executing it, so that the supervisor knows which run killed the process.
+fn cmd_scan(scens: &[&dyn Scenario], args: &[String]) -> i32 {
+    use std::io::Write;
+    let Some(scen) = args.first().and_then(|n| find(scens, n)) else { return 2 };
+    let seed: u64 = arg_val(args, "--seed").and_then(|s| s.parse().ok()).unwrap_or(1);
+    let runs: u64 = arg_val(args, "--runs").and_then(|s| s.parse().ok()).unwrap_or(1000);
+    let stride: u64 = arg_val(args, "--stride").and_then(|s| s.parse().ok()).unwrap_or(1);
+    let offset: u64 = arg_val(args, "--offset").and_then(|s| s.parse().ok()).unwrap_or(0);
+    let out = std::io::stdout();
+    let mut obs = Observer::new();
+    let mut i = offset;
+    while i < runs {
+        {
+            let mut l = out.lock();
+            let _ = writeln!(l, "{}", i);
+            let _ = l.flush();
+        }
+        let _ = exec_gen(scen, run_seed(seed, scen, i), &mut obs);
+        i += stride;
+    }
+    println!("done");
+    0
+}
+
+/// Child of `isolate`: one generated run with the crash journal switched on.
+fn cmd_journal(scens: &[&dyn Scenario], args: &[String]) -> i32 {
+    let Some(scen) = args.first().and_then(|n| find(scens, n)) else { return 2 };
+    let seed: u64 = arg_val(args, "--seed").and_then(|s| s.parse().ok()).unwrap_or(1);
+    let index: u64 = arg_val(args, "--index").and_then(|s| s.parse().ok()).unwrap_or(0);
+    let Some(out) = arg_val(args, "--out") else { return 2 };
+    let Ok(f) = std::fs::File::create(&out) else { return 2 };
+    VERBOSE_PANICS.store(true, std::sync::atomic::Ordering::Relaxed);
+    let mut src = crate::case::Source::gen(run_seed(seed, scen, index)).with_journal(f);
+    let mut obs = Observer::new();
+    obs.begin_run();
+    let r = std::panic::catch_unwind(std::panic::AssertUnwindSafe(|| scen.run(&mut src, &mut obs)));
+    match r {
+        Ok(Ok(())) => println!("JOURNAL-OK"),
+        Ok(Err(v)) => println!("JOURNAL-VIOLATION {}", v.invariant),
+        Err(_) => println!("JOURNAL-PANIC"),
+    }
+    0
+}
+
+fn abort_signature(stderr: &str, status: &std::process::ExitStatus) -> Option<String> {
+    if status.code().is_some() {
+        return None; // exited normally
+    }
+    let msg = stderr
+        .lines()
+        .filter(|l| l.starts_with("NONUNWIND-PANIC "))
+        .last()
+        .map(|l| l["NONUNWIND-PANIC ".len()..].to_string())
+        .unwrap_or_else(|| format!("{}", status));
+    let mut sig: String = msg.chars().take(110).collect();
+    sig = sig.replace(' ', "_");
+    Some(format!("abort:{}", sig))
+}
+
+/// Supervisor for batches in which some run takes the whole process down (abort from a violated
+/// unsafe precondition, segfault): never executes scenario code itself.  Finds the first aborting
+/// run with single-threaded `scan` children, recovers its schedule from the crash journal,
+/// minimises it with `replay` children and reports it like any other violation.
+fn cmd_isolate(scens: &[&dyn Scenario], args: &[String]) -> i32 {
+    use std::process::{Command, Stdio};
+    let Some(scen) = args.first().and_then(|n| find(scens, n)) else {
+        eprintln!("HARNESS-ERROR unknown scenario");
+        return 2;
+    };
+    let tier = arg_val(args, "--tier").unwrap_or_else(|| "quick".into());
+    let seed: u64 = arg_val(args, "--seed").and_then(|s| s.parse().ok()).unwrap_or(1);
+    let runs: u64 = arg_val(args, "--runs").and_then(|s| s.parse().ok()).unwrap_or_else(|| scen.runs(&tier));
+    let workers: u64 = arg_val(args, "--threads").and_then(|s| s.parse().ok()).unwrap_or(16);
+    let replays = PathBuf::from(arg_val(args, "--replays").unwrap_or_else(|| "replays".into()));
+    let _ = std::fs::create_dir_all(&replays);
+    let exe = std::env::current_exe().unwrap();
+    // 1. which run aborts?
+    let children: Vec<_> = (0..workers)
+        .map(|t| {
+            Command::new(&exe)
+                .args(["scan", scen.name(), "--seed", &seed.to_string(), "--runs", &runs.to_string()])
+                .args(["--stride", &workers.to_string(), "--offset", &t.to_string()])
+                .stdout(Stdio::piped())
+                .stderr(Stdio::null())
+                .spawn()
+        })
+        .collect();
+    let mut first_abort: Option<u64> = None;
+    let mut scanned = 0u64;
+    for c in children {
+        let Ok(c) = c else {
+            println!("HARNESS-ERROR cannot spawn scan child");
+            return 2;
+        };
+        let Ok(o) = c.wait_with_output() else { continue };
+        let so = String::from_utf8_lossy(&o.stdout);
+        let lines: Vec<&str> = so.lines().collect();
+        scanned += lines.len() as u64;
+        if lines.last() != Some(&"done") {
+            if let Some(i) = lines.last().and_then(|l| l.parse::<u64>().ok()) {
+                first_abort = Some(first_abort.map_or(i, |f| f.min(i)));
+            }
+        }
+    }
+    let Some(idx) = first_abort else {
+        println!("HARNESS-ERROR the batch died abnormally but no single run reproduces it ({} runs scanned)", scanned);
+        return 2;
+    };
+    // 2. its schedule, from the crash journal
+    let jpath = replays.join(format!("{}-{}-{}.journal", scen.property(), scen.name(), idx));
+    let out = Command::new(&exe)
+        .args(["journal", scen.name(), "--seed", &seed.to_string(), "--index", &idx.to_string(), "--out"])
+        .arg(&jpath)
+        .output();
+    let Ok(out) = out else {
+        println!("HARNESS-ERROR cannot spawn journal child");
+        return 2;
+    };
+    let Some(sig) = abort_signature(&String::from_utf8_lossy(&out.stderr), &out.status) else {
+        println!("HARNESS-ERROR run {} aborted in the batch but not on its own", idx);
+        return 2;
+    };
+    let case = crate::case::parse_journal(&std::fs::read_to_string(&jpath).unwrap_or_default());
+    let _ = std::fs::remove_file(&jpath);
+    let rseed = run_seed(seed, scen, idx);
+    // 3. minimise with child processes
+    let tmp = replays.join(format!("{}-{}-{}.candidate", scen.property(), scen.name(), rseed));
+    let mut test = |c: &Case| -> Option<Case> {
+        let text = render_case(scen.property(), scen.name(), rseed, &sig, scen.ops(), c);
+        std::fs::write(&tmp, text).ok()?;
+        let o = Command::new(&exe).arg("replay").arg(&tmp).output().ok()?;
+        match abort_signature(&String::from_utf8_lossy(&o.stderr), &o.status) {
+            Some(s) if s == sig => Some(c.clone()),
+            _ => None,
+        }
+    };
+    let (min_case, execs) = crate::batch::minimise_with(scen.ops(), &case, 400, &mut test);
+    let _ = std::fs::remove_file(&tmp);
+    let path = replays.join(format!("{}-{}-{}.replay", scen.property(), scen.name(), rseed));
+    let text = render_case(scen.property(), scen.name(), rseed, &sig, scen.ops(), &min_case);
+    if std::fs::write(&path, &text).is_err() {
+        println!("HARNESS-ERROR cannot write replay");
+        return 2;
+    }
+    // 4. the minimised file must abort the same way in a fresh process
+    let o = Command::new(&exe).arg("replay").arg(&path).output();
+    let same = o
+        .ok()
+        .and_then(|o| abort_signature(&String::from_utf8_lossy(&o.stderr), &o.status))
+        .map(|s| s == sig)
+        .unwrap_or(false);
+    if !same {
+        println!("HARNESS-ERROR replay {} did not abort the same way in a fresh process", path.display());
+        return 2;
+    }
+    println!(
+        "violation: invariant={} run={} seed={} step={} :: the process was killed while executing library code: {}",
+        sig,
+        idx,
+        rseed,
+        case.ops.len(),
+        sig
+    );
+    println!(
+        "minimised from {} to {} operations in {} child executions; replay aborts identically in a fresh process",
+        case.ops.len(),
+        min_case.ops.len(),
+        execs
+    );
+    println!(
+        "VIOLATION property={} replay={}",
+        scen.property(),
+        std::fs::canonicalize(&path).unwrap_or(path.clone()).display()
+    );
+    println!("ISOLATED first_aborting_run={}", idx);
+    1
+}
+
 fn cmd_replay(scens: &[&dyn Scenario], args: &[String]) -> i32 {
+    VERBOSE_PANICS.store(true, std::sync::atomic::Ordering::Relaxed);
     let Some(path) = args.first() else {
         eprintln!("HARNESS-ERROR replay needs a file");
         return 2;
